@@ -177,6 +177,19 @@ CLAIMED = {
         "contract-based deductive verification: symbolic execution of the real transformation code against TFP contracts (own VC generator, z3)",
         "DESIGN.md §3 C14",
     ),
+    "C17": (
+        "proof",
+        "The REAL Model.simulate (with Model.update / _recursive_inputs / Dist.init_dist / Value.value.fset) is executed symbolically on the "
+        "enumerated shapes (hierarchy with a parent reached through a cached weak variable via a keyword input, diamond with cached + transient "
+        "calculations, flat), for both auto-update settings and three skip sets, all values / functions / distributions symbolic: every "
+        "non-skipped distributed variable becomes draw_D(parameters at the NEWLY drawn ancestor values, sample shape of its current value, its "
+        "own child of the seed), skipped variables keep their value, children of the seed are distinct, nothing is outdated after a subsequent "
+        "update (47 obligations). Bounded: numeric runs with tight scales, seed determinism, independence of auto_update.",
+        "graph shapes enumerated; value shapes rank 1 with scalar batch/event shape in the proof (other shapes bounded); T: tfp sample draws from "
+        "the initialised distribution (the distributional clause itself is not decided); A-NX; A-RNG.",
+        "contract-based deductive verification: symbolic execution of the real simulate code on enumerated shapes with fully symbolic values (own VC generator, z3)",
+        "DESIGN.md §3 C17",
+    ),
 }
 
 NOT_APPLICABLE = {
